@@ -585,6 +585,26 @@ static void hist_string(uint64_t c, const char *fam) {
                 bool e = (m[x] == m[y]);
                 if ((s[x] == s[y]) != e || (s[x] != s[y]) == e || s[x].IsEqual(s[y].First(), s[y].Length()) != e)
                     vf::fail(key(opname, "result").c_str(), "step=%u", step);
+                // ordering against another string and against a prefix / an extension of itself (String, view, C string)
+                {
+                    auto less = [](const MS &a, const MS &b) { return std::lexicographical_compare(a.begin(), a.end(), b.begin(), b.end()); };
+                    MS   pre  = m[x].substr(0, r.below(unsigned(m[x].size()) + 1));
+                    MS   ext  = m[x] + MS(1, C('a' + r.below(3)));
+                    const MS *others[3] = {&m[y], &pre, &ext};
+                    for (const MS *o : others) {
+                        String<C>     so((const C *)o->data(), SizeT(o->size()));
+                        StringView<C> vx(s[x].First(), s[x].Length()), vo(so.First(), so.Length());
+                        bool lt = less(m[x], *o), gt = less(*o, m[x]), eq = (m[x] == *o);
+                        bool ok = ((s[x] < so) == lt) && ((s[x] <= so) == (lt || eq)) && ((s[x] > so) == gt) && ((s[x] >= so) == (gt || eq)) &&
+                                  ((vx < vo) == lt) && ((vx <= vo) == (lt || eq)) && ((vx > vo) == gt) && ((vx >= vo) == (gt || eq));
+                        if (o->find(C(0)) == MS::npos)
+                            ok = ok && ((s[x] < so.First()) == lt) && ((s[x] <= so.First()) == (lt || eq)) && ((s[x] > so.First()) == gt) && ((s[x] >= so.First()) == (gt || eq));
+                        if (!ok) {
+                            vf::fail(key(opname, "ordering").c_str(), "step=%u left=%s right=%s", step, vf::show(m[x].data(), m[x].size()).c_str(), vf::show(o->data(), o->size()).c_str());
+                            break;
+                        }
+                    }
+                }
                 break;
             }
             case 31: {
